@@ -259,33 +259,32 @@ def rule_Y3(ctx, R):
 
 
 def rule_Y1(ctx, R):
-    res = _mk("Y1", "retrying collection: one blocking acquisition call site per function; every other acquisition is a try; mode purity")
-    for adt, name, f in rawlock_impl_fns(ctx, {RETRY}):
-        if name not in ("raw_write", "raw_read"):
+    res = _mk("Y1", "retrying collection: one blocking acquisition site per operation; every other acquisition is a try; mode purity "
+                    "(sites = distinct source locations of the acquisitions executed on the data-model paths, helpers inlined)")
+    for f, label, kind, mode, pre in alg_functions(ctx):
+        if not (label.startswith("Retrying::") and kind == "ACQ"):
             continue
-        want = HL_SEM[name][1]
-        sites = {"ACQ": 0, "TRY": 0}
+        name = label.split("::")[1]
+        paths, err = explore(ctx, f, 3, mode, kind, faults=0, loop_limit=5 * 3, preheld=pre, acq_limit=3)
+        if err:
+            res.undecided(f["path"], "n=3", err, *_floc(f))
+            continue
+        sites = {"ACQ": set(), "TRY": set()}
         bad = None
-        fns = [f] + [g for g in ctx.F.fns if g["kind"] == "Closure" and ctx.F.top_fn(g)["id"] == f["id"]]
-        for g in fns:
-            for b in g.get("mir", {}).get("blocks", []):
-                t = b["term"]
-                if t["k"] == "call" and t["callee"]["k"] == "fndef" and t["callee"].get("trait") == "lockable::RawLock":
-                    nm = t["callee"]["name"]
-                    if nm in HL_SEM:
-                        k, m = HL_SEM[nm]
-                        if m != want:
-                            bad = "%s inside %s" % (nm, name)
-                        if k in sites:
-                            sites[k] += 1
-        if sites["ACQ"] != 1:
-            bad = bad or "%d blocking acquisition call sites (exactly one is allowed)" % sites["ACQ"]
-        if sites["TRY"] < 1:
+        for p in paths:
+            for e in p.events:
+                if e["k"] in ("ACQ", "TRY") and e.get("recv", "").startswith(LID):
+                    sites[e["k"]].add((e.get("fn"), e.get("line")))
+                    if e["mode"] != mode:
+                        bad = "%s-mode acquisition inside %s" % (e["mode"], name)
+        if len(sites["ACQ"]) != 1:
+            bad = bad or "%d blocking acquisition sites (exactly one is allowed): %s" % (len(sites["ACQ"]), sorted(sites["ACQ"]))
+        if len(sites["TRY"]) < 1:
             bad = bad or "no try acquisition: the other members would be taken by blocking"
         if bad:
             res.bad(Violation("Y1", f["path"], name, bad, *_floc(f)))
         else:
-            res.ok("%s: 1 blocking site, %d try sites" % (name, sites["TRY"]))
+            res.ok("%s: 1 blocking site, %d try sites" % (name, len(sites["TRY"])))
     res.need(2, "retrying blocking ops")
     return res
 
